@@ -1017,6 +1017,12 @@ func defaultGenOpts() GenOpts {
 }
 
 func genATPlan(seed uint64, tier, mode string) *ATPlan {
+	return genATPlanTweaked(seed, tier, mode, nil)
+}
+
+// genATPlanTweaked lets an engine steer the generator features (after the
+// swarm draw, before tables and statements are generated).
+func genATPlanTweaked(seed uint64, tier, mode string, tweak func(g *simkit.Gen, o *GenOpts)) *ATPlan {
 	g := simkit.NewGen(seed)
 	p := &ATPlan{Mode: mode, Cfg: genATCfg(g, g.Prob(0.5)), Opts: defaultGenOpts()}
 	// swarm over generator features
@@ -1036,6 +1042,9 @@ func genATPlan(seed uint64, tier, mode string) *ATPlan {
 		p.Opts.WhereForms = pickSome(g, []string{"pk", "in", "between", "and", "or", "paren", "nonpk"}, 1)
 	}
 	p.Opts.Params = g.Prob(0.8)
+	if tweak != nil {
+		tweak(g, &p.Opts)
+	}
 	nt := g.Range(1, 2)
 	for i := 0; i < nt; i++ {
 		p.Tables = append(p.Tables, genTable(g, fmt.Sprintf("t_%c", 'a'+i), p.Opts))
@@ -1080,8 +1089,11 @@ func loadATPlan(seed uint64, planJSON []byte, tier, mode string, res *Result) (*
 		}
 		return plan, simkit.ReplayTape(plan.Tape)
 	}
-	return genATPlan(seed, tier, mode), simkit.NewTape(seed)
+	return genATPlanTweaked(seed, tier, mode, atPlanTweak), simkit.NewTape(seed)
 }
+
+// atPlanTweak is set by an engine that steers the shared AT generator.
+var atPlanTweak func(g *simkit.Gen, o *GenOpts)
 
 var atComponents = map[string]string{
 	"pkg/datasource/sql (proxy driver, connections, transactions, AT executors, undo log manager/builders/executors, async worker, table-meta cache)": "real",
